@@ -50,6 +50,11 @@ claim('C02', 'devx+bfs',
       'A: every assignment of 16 SSO dimensions (request ACS URL {absent, registered, foreign, foreign-with-registered-prefix}, ACS index, ProtocolBinding, Destination, RelayState incl. a URL, extra parameters named like response fields, 9 ACS metadata shapes incl. URLs with query strings / quotes / angle brackets / fragments, validity failures at several steps, persist failure, signed and forged requests, host-derived issuer) with <= 3 (quick) / <= 4 (thorough) deviations; the pair handed to storage must be a registered entry of the SP named by the issuer, each reply that carries a message must target a registered entry (never a URL occurring only in the request) and every persisted record is then driven through the callback before and after completion where form action / Location, Destination and Recipient must equal the stored pair. B: full product of 9 stored URLs x 4 stored bindings x state x RelayState for injected records. C: logout delivery over 7 SLO list shapes (k<=2).',
       'Stored and registered URLs are absolute http(s) URLs; targets are compared modulo percent-encoding.', '§5 C02')
 
+claim('C12', 'devx',
+      'deviation-bounded exhaustive enumeration of SOAP attribute queries x user records executed on the real handler, judged by a reference disclosure model',
+      'Every assignment of 14 dimensions (Issuer registered/other/unregistered/absent; signature none/valid/bit-flipped/edited-after-signing/foreign key/other SP/stripped; Destination advertised/absent/SSO location/foreign/namespace-prefixed; subject known/other/unknown/absent; 13 requested-attribute list shapes with matching, non-matching and duplicate (Name, NameFormat); 7 user-record shapes; serialisation styles; issuer and endpoint configuration) with <= 2 (quick) / <= 3 (thorough) deviations plus the full product requested-list x user-record. The reference model computes the guard conjunction and the expected attribute multiset from the generator ground truth; the reply is decoded with the harness XML tree and the assertion signature is checked by two independent verifiers.',
+      'Signature clause is skipped where signed data contains XML metacharacters (C04 alphabet).', '§5 C12')
+
 NOT_YET = {i: 'check not built yet in this revision (planned: see DESIGN.md §5 %s); not claimed until its machinery exists' % i for i in ids}
 
 def main():
